@@ -336,7 +336,13 @@ def snapshot(env, scn, here):
     for i in here:
         ent = dct.get(scn['tasks'][i]['name'])
         if isinstance(ent, dict):
-            snap[i] = copy.deepcopy({k: v for k, v in ent.items()})
+            snap[i] = {}
+            for key, val in ent.items():
+                try:
+                    snap[i][key] = copy.deepcopy(val)
+                except Exception:   # noqa  (whatever the code left there)
+                    snap[i][key] = '<%s that cannot be copied>' \
+                        % type(val).__name__
             if 'status' in snap[i]:
                 snap[i]['status'] = sched.status_name(snap[i]['status'])
     return snap
